@@ -432,3 +432,110 @@ def short_mapping_chunk_is_padded_independently(H, k):
     H.check("edited_mapping_saved", H.eq(after[j], (nm, nc)))
     H.check("every_other_mapping_untouched", H.eq(after[:j] + after[j + 1:], before[:j] + before[j + 1:]))
     H.cover("reached")
+
+
+@contract("edit_embedded_target_after_load", ["C06", "C15"], targets=_T + ["rv.modules.module:Module.set_raw", "rv.modules.metamodule:MetaModule.on_controller_changed"],
+          cases=lambda tier: [("synth", "synth"), ("project", "project")])
+def edit_embedded_target_after_load(H, ctx):
+    """A loaded MetaModule whose user-defined controllers are mapped onto embedded controllers: editing
+    the EMBEDDED controller directly (any in-range value) and saving gives a file that shows the new
+    value there - the value the user-defined controller had in the old file is not replayed over it -
+    and every other embedded controller is as it was."""
+    m = build_metamodule(H, 4)
+    if ctx == "synth":
+        box = rw.read_back(H, rw.write_container(H, Synth(m)))
+        get = lambda b: b.module  # noqa
+    else:
+        p = Project()
+        p.attach_module(m)
+        box = rw.read_back(H, rw.write_container(H, p))
+        get = lambda b: b.modules[1]  # noqa
+    q = get(box)
+    amp = q.project.modules[1]
+    which = H.choice("edited", ["balance", "volume"])
+    t = type(amp).controllers[which].value_type
+    v = H.int("new_value", t.min, t.max)
+    before = _inner_state(q)
+    H.setattr(amp, which, v)
+    r = get(rw.read_back(H, rw.write_container(H, box)))
+    after = _inner_state(r)
+    for k in before:
+        if k == (amp.index, which):
+            H.check("edited_embedded_controller_is_what_gets_saved", H.eq(after.get(k), v))
+        else:
+            H.check(f"embedded[{k[0]}].{k[1]}.untouched", H.eq(after.get(k), before[k]))
+    H.cover("reached")
+
+
+@contract("metamodules_with_different_counts_in_one_project", ["C15", "C01", "C03"], targets=_T,
+          cases=lambda tier: [("1,4,0", (1, 4, 0)), ("3,0,2", (3, 0, 2))])
+def metamodules_with_different_counts_in_one_project(H, counts):
+    """Several MetaModules with DIFFERENT numbers of user-defined controllers side by side in one project:
+    each is written with exactly 5 + its own n controller values, and each comes back with its own count,
+    values, mappings and labels."""
+    p = Project()
+    mods = []
+    for j, n in enumerate(counts):
+        m = build_metamodule(H, n, pfx=f"mm{j}.")
+        p.attach_module(m)
+        mods.append(m)
+    data = rw.write_container(H, p)
+    chunks = F.parse_stream(data)
+    starts = [i for i, c in enumerate(chunks) if bytes(c[0]) == b"SFFF"]
+    for j, (m, n) in enumerate(zip(mods, counts)):
+        lo = starts[j + 1]
+        hi = starts[j + 2] if j + 2 < len(starts) else len(chunks)
+        # the section of this module ends at its first SEND (the embedded project is inside a CHDT)
+        sect = []
+        for c in chunks[lo:hi]:
+            sect.append(c)
+            if bytes(c[0]) == b"SEND":
+                break
+        H.check(f"mm{j}.file_has_5_plus_n_controller_values", [bytes(c[0]) for c in sect].count(b"CVAL") == 5 + n)
+    q = rw.read_back(H, data)
+    for j, (m, n) in enumerate(zip(mods, counts)):
+        check_metamodule(H, m, q.modules[j + 1], n, tag=f"mm{j}")
+    H.cover("reached")
+
+
+@contract("out_of_range_values_load_leniently_around_nested_loads", ["C15", "C05", "C18"],
+          targets=_T + ["rv.errors:override_raise_controller_value_errors", "rv.readers.reader:read_sunvox_file", "rv.modules.module:Module.set_raw"],
+          cases=lambda tier: [("synth", "synth"), ("project", "project")])
+def out_of_range_values_load_leniently_around_nested_loads(H, ctx):
+    """A file in which the MetaModule's own 'volume' (and, in a project, the volume of a module that comes
+    AFTER the MetaModule) holds a stored value outside the declared range: loading still succeeds - the
+    nested load of the embedded project must not switch strict validation back on for the rest of the
+    outer load - the values are kept, and strict mode is in force again afterwards."""
+    import rv.errors
+
+    m = MetaModule()
+    m.project.new_module(Amplifier, name="inner amp")
+    m.user_defined_controllers = 1
+    big = H.int("stored_volume", 1025, 2**31 - 1)
+    if ctx == "synth":
+        chunks = F.parse_stream(rw.write_container(H, Synth(m)))
+    else:
+        p = Project()
+        p.attach_module(m)
+        p.new_module(Amplifier, name="after the metamodule")
+        chunks = F.parse_stream(rw.write_container(H, p))
+    # first CVAL of the MetaModule section = its 'volume'; in the project also the first CVAL of the module after it
+    styp = [i for i, c in enumerate(chunks) if bytes(c[0]) == b"STYP"]
+    targets = []
+    for s0 in styp:
+        name = bytes(chunks[s0][1]).split(bytes([0]))[0]
+        nxt = next(i for i in range(s0, len(chunks)) if bytes(chunks[i][0]) == b"CVAL")
+        if name == b"MetaModule" or (ctx == "project" and name == b"Amplifier"):
+            targets.append(nxt)
+    edited = [(c, F.enc_i32(big) if i in targets else d) for i, (c, d) in enumerate(chunks)]
+    K.strict()
+    exc, box = H.raises(rw.read_back, H, rw.join([F.frame(bytes(c), d) for c, d in edited]))
+    H.check("file_with_out_of_range_values_loads", exc is None)
+    H.check("strict_mode_in_force_after_the_load", rv.errors.RAISE_CONTROLLER_VALUE_ERRORS is True)
+    if exc is not None:
+        return
+    q = box.module if ctx == "synth" else box.modules[1]
+    H.check("metamodule_volume_kept", H.eq(q.controller_values["volume"], big))
+    if ctx == "project":
+        H.check("later_module_volume_kept", H.eq(box.modules[2].controller_values["volume"], big))
+    H.cover("reached")
